@@ -36,7 +36,7 @@ CHECKS = {
             'operators differently from the stated reading is exercised; leaves are distinct primes so a wrong grouping '
             'changes the value. Deep chains (depth 30) cover the depth dimension deterministically.',
             'Trusted: the 60-line renderer that encodes the stated precedence reading and the Fraction evaluator. Not '
-            'demanded: chained comparisons, ^ (the rank of & is demanded: between + - and the comparisons; & is mixed with arithmetic subtrees of up to 2 operators). Trees with more than 5 operators are only '
+            'demanded: ^ (chained comparisons group left to right on one level; the rank of & is demanded: between + - and the comparisons; & is mixed with arithmetic subtrees of up to 2 operators). Trees with more than 5 operators are only '
             'covered by the deterministic chains.', 'DESIGN.md §5 C04'),
     'C05': ('exhaustive enumeration of literal spellings, whitespace placements at every token boundary of a formula '
             'corpus, the three separator styles and all 2^k blank-slot patterns, evaluated by the real parser; ' + K3,
